@@ -357,6 +357,19 @@ def valid (r : ModRules) (ctx : Ctx) (x : NrpsPks) : Bool :=
   x.recordId == ctx.recordId && x.cds.all fun p => ctx.cdsNames.contains p.1 && p.2.valid r
 end NrpsPks
 
+/-- `generate_domain_features`: the identifiers of the aSDomain features of one gene,
+    `nrpspksdomains_<gene>_<hit id>.<n>` with `n` counting the hits of that profile in order
+    (distinct hits; equal hits share a dictionary key in the code and are not modelled) -/
+def domainIdsGo (gene : String) : List String → List HMMResult → List String
+  | _, [] => []
+  | seen, h :: rest =>
+    let n := (seen.filter (· == h.hitId)).length + 1
+    ("nrpspksdomains_" ++ gene ++ "_" ++ h.hitId ++ "." ++ String.ofList (Nat.toDigits 10 n))
+      :: domainIdsGo gene (seen ++ [h.hitId]) rest
+/-- all domain features `from_json` (through `annotate_domains`) adds to the record, gene by gene -/
+def NrpsPks.domainIds (x : NrpsPks) : List String :=
+  x.cds.flatMap fun p => domainIdsGo p.1 [] p.2.domainHmms
+
 /-! ### rule-based detection: SecMetQualifier.Domain, CDSResults, protoclusters as features,
     RuleDetectionResults, HMMDetectionResults -/
 
@@ -570,6 +583,58 @@ def detach (x : RuleRes) : RuleRes := { x with byCluster := x.byCluster.map fun 
 /-- `get_predicted_protoclusters` -/
 def protoclusters (x : RuleRes) : List Proto := x.byCluster.map (·.1)
 end RuleRes
+
+/-! #### CDSResults.annotate / RuleDetectionResults.annotate_cds_features -/
+
+inductive FnKind where
+  | core | additional
+deriving DecidableEq, Repr, Inhabited
+
+/-- a `_GeneFunctionAnnotation` -/
+structure GeneFn where
+  kind : FnKind
+  tool : String
+  description : String
+  product : Option String
+deriving DecidableEq, Repr, Inhabited
+
+/-- what `annotate` touches of a CDS: its `sec_met` qualifier and its gene functions -/
+structure CdsState where
+  secmet : Option (List SDomain) := none
+  functions : List GeneFn := []
+deriving DecidableEq, Repr, Inhabited
+
+/-- `SecMetQualifier.add_domains`: a domain whose name is already present is skipped -/
+def addDomains (existing new : List SDomain) : List SDomain :=
+  new.foldl (fun acc d => if acc.any (·.name == d.name) then acc else acc ++ [d]) existing
+/-- `GeneFunctionAnnotations.add`: an identical annotation is not added twice -/
+def addFn (fs : List GeneFn) (f : GeneFn) : List GeneFn := if fs.contains f then fs else fs ++ [f]
+
+/-- `CDSResults.annotate(tool)` (with the D51 repair: definition domains are visited sorted) -/
+def CdsRes.annotate (tool : String) (st : CdsState) (c : CdsRes) : CdsState :=
+  let existing : List SDomain := match st.secmet with
+    | some ex => ex
+    | none => []
+  -- `if not self.cds.sec_met` (None or no domains): a new qualifier; otherwise the existing domain ids
+  -- count as matching and the new domains are appended
+  let doms := addDomains existing c.domains
+  let pre := existing.map (·.name)
+  let allMatching := pre ++ c.defDomains.flatMap (·.2)
+  let fns1 := c.defDomains.foldl (fun fs p =>
+      (setOf p.2).foldl (fun fs n => addFn fs ⟨.core, tool, n, some p.1⟩) fs) st.functions
+  let fns2 := doms.foldl (fun fs d =>
+      if allMatching.contains d.name then fs else addFn fs ⟨.additional, d.tool, d.name, none⟩) fns1
+  ⟨some doms, fns2⟩
+
+def updState (m : List (String × CdsState)) (name : String) (f : CdsState → CdsState) : List (String × CdsState) :=
+  if m.any (·.1 == name) then m.map fun p => if p.1 == name then (p.1, f p.2) else p
+  else m ++ [(name, f {})]
+
+/-- `annotate_cds_features` on a record without previous annotations: every CDSResults of every
+    protocluster in order, then those outside; the result per gene (in order of first annotation) -/
+def RuleRes.annotateAll (x : RuleRes) : List (String × CdsState) :=
+  (x.byCluster.flatMap (·.2) ++ x.outside).foldl
+    (fun m c => updState m c.cdsName (fun st => c.annotate x.tool st)) []
 
 def strictnessLevels : List String := ["strict", "relaxed", "loose"]
 
@@ -991,6 +1056,13 @@ def regenerate (ctx : Ctx) (maxEvalue minScore : Dec) (j : J) : Outcome HmmerRes
       if Dec.lt minScore x.score || Dec.lt x.evalue maxEvalue then .discard
       else refilter x maxEvalue minScore
     | other => other
+/-- `f"{i+1:04d}"` -/
+def pad4 (n : Nat) : String :=
+  let ds := Nat.toDigits 10 n
+  String.ofList (List.replicate (4 - ds.length) '0' ++ ds)
+/-- `add_to_record`: the identifiers of the PFAM domain features, `<tool>_<locus tag>_<i+1:04d>` -/
+def domainIds (x : HmmerRes) : List String :=
+  (List.range x.hits.length).zip x.hits |>.map fun p => x.tool ++ "_" ++ p.2.locusTag ++ "_" ++ pad4 (p.1 + 1)
 /-- invariant of results produced by `run_hmmer`: hits are well-formed and within the thresholds -/
 def valid (ctx : Ctx) (x : HmmerRes) : Bool :=
   x.recordId == ctx.recordId && x.hits.all fun h => h.valid && Dec.le x.score h.score && Dec.le h.evalue x.evalue
